@@ -330,6 +330,141 @@ def system_order(p0: int, p1: int, p2: int, p3: int, p4: int, j: int, k: int) ->
     return hx.end(True)
 
 
+class _Walker(Core.System):
+    """draws one random agent per run and logs it; may give a bystander (unrelated code) a chance to run first"""
+    __slots__ = ['bystander']
+
+    def __init__(self, id, model, priority=0):
+        super().__init__(id, model, priority=priority)
+        self.bystander = None
+
+    def execute(self):
+        if self.bystander is not None:
+            self.bystander()
+        env = self.model.environment
+        a = env.get_random_agent()
+        env.components.setdefault("log", []).append((self.id, self.model.systems.timestep, None if a is None else a.id))
+
+
+def interleaved(p0: int, p1: int, p2: int, r0: int, r1: int, r2: int, r3: int, g0: int, g1: int, who: int) -> bool:
+    """
+    pre: 0 <= who < hx.P['n']
+    pre: r0 >= 0 and r1 >= 0 and r2 >= 0 and r3 >= 0 and g0 >= 0 and g1 >= 0
+    post: _
+    """
+    # 2-safety by self-composition: the same model code with the same stream run twice - once alone, once while one of
+    # its systems gives unrelated code the chance to build / step ANOTHER model in between (ensemble drivers, what-if
+    # side simulations).  The two trajectories (which system ran when, and what it drew) must be identical.
+    hx.begin()
+    n, steps, what = hx.P['n'], hx.P['steps'], hx.P['bystander']
+    ps = [p0, p1, p2][:n]
+    stream = [r0, r1, r2, r3, r1, r0, r3, r2]
+
+    def build():
+        m = Model(seed=1, logger=NULL_LOGGER)
+        m.random = SymRandom(stream)
+        for i in range(2):
+            m.environment.add_agent(HA("a%d" % i, m))
+        ss = [_Walker(_SYS_IDS[i], m, priority=ps[i]) for i in range(n)]
+        for s_ in ss:
+            m.systems.add_system(s_)
+        return m, ss
+
+    side = Model(seed=2, logger=NULL_LOGGER)
+    side.random = SymRandom([g0, g1, g0, g1, g0, g1, g0, g1])
+    side.environment.add_agent(HA("b0", side))       # (one agent: the side model draws, but its draws do not fork paths)
+    side.systems.add_system(_Walker("side0", side, priority=3))
+    side.systems.add_system(_Walker("side1", side, priority=1))
+
+    made = []
+
+    def bystander():
+        if what == 'step':
+            side.execute()
+        elif what == 'build':
+            fresh = Model(seed=3, logger=NULL_LOGGER)
+            fresh.systems.add_system(_Walker("f0", fresh))
+            fresh.environment.add_agent(HA("c0", fresh))
+        else:
+            made.append(len(made))
+            side.systems.add_system(_Walker("late%d" % len(made), side, priority=2))
+            side.execute()
+            side.systems.remove_system("side1") if "side1" in side.systems.systems else None
+
+    alone, _ = build()
+    alone.execute(steps)
+    busy, ss = build()
+    hx.pick(ss, who).bystander = bystander
+    busy.execute(steps)
+    a, b = alone.environment.components.get("log", []), busy.environment.components.get("log", [])
+    if len(a) == n * steps:
+        hx.reach('full_trajectory')
+    if a != b:
+        return hx.end(hx.fail("trajectory depends on another model being built/stepped in between", alone=a, interleaved=b,
+                              bystander=what, priorities=ps))
+    return hx.end(alone.timestep == busy.timestep)
+
+
+class _Consumer(Core.System):
+    """asks the framework for a list, then consumes it destructively - legitimate: every such answer is a fresh list"""
+    __slots__ = ['service']
+
+    def execute(self):
+        env, sv = self.model.environment, self.service
+        if sv == 'moore':
+            lst = env.get_moore_neighbours((0, 0, 0), 1, False, tuple)
+        elif sv == 'neumann':
+            lst = env.get_neumann_neighbours((1, 1, 0), 1, False, int)
+        elif sv == 'neighbours':
+            lst = env.get_neighbours((1, 0, 0), 1, True, int, 'moore')
+        elif sv == 'agents':
+            lst = env.get_agents()
+        elif sv == 'shuffle':
+            lst = env.shuffle()
+        else:
+            lst = env.get_agents_at(0, 0, 0)
+        k = self.model.random.randrange(len(lst))
+        got = lst.pop(k)
+        env.components.setdefault("log", []).append(got.id if isinstance(got, Agent) else got)
+
+
+def rerun(r0: int, r1: int, r2: int, g0: int) -> bool:
+    """
+    pre: r0 >= 0 and r1 >= 0 and r2 >= 0 and g0 >= 0
+    post: _
+    """
+    # the same model code with the same stream, run twice in ONE process (second run of a seed, next repetition of a
+    # batch, next job of a pool worker), optionally with another model of the same shape in between: identical logs
+    from vf.stubs import patched_pandas
+    hx.begin()
+    sv, between = hx.P['service'], hx.P.get('between', False)
+
+    def run(stream):
+        m = Model(seed=1, logger=NULL_LOGGER)
+        m.random = SymRandom(stream)
+        env = Env.GridWorld(m, 2, 2)
+        m.environment = env
+        for i in range(3):
+            env.add_agent(HA("a%d" % i, m), 0, 0)
+        c = _Consumer("consumer", m)
+        c.service = sv
+        m.systems.add_system(c)
+        m.execute(2)
+        return env.components.get("log", [])
+
+    with patched_pandas():
+        first = run([r0, r1, r2, r0, r1, r2])
+        if between:
+            run([g0, g0, g0, g0, g0, g0])
+        second = run([r0, r1, r2, r0, r1, r2])
+    if len(first) == 2:
+        hx.reach('two_steps')
+    if first != second:
+        return hx.end(hx.fail("second run of the same model code and stream differs from the first", first=first, second=second,
+                              service=sv))
+    return hx.end(True)
+
+
 BOUNDS = {"agents": "<= 3", "draws": "<= 3 from the model stream, all non-negative ints", "global-generator stream": "all non-negative ints",
           "set iteration order": "every permutation (symbolic Lehmer code, digits 0..7)", "tags": "0/1"}
 OUTSIDE = ["hash seeds other than the pinned ones in `system_order` (each is decided symbolically over priorities, the seeds are enumerated)",
@@ -363,6 +498,16 @@ def obligations(tier):
           labels=("reregistered",), timeout=600, group=1, encoded=(Core.SystemManager.add_system, Core.SystemManager.remove_system,
                                                                     Core.SystemManager.execute_systems),
           bounds={"systems": "3..%d with string ids" % (4 if tier == "quick" else 5), "PYTHONHASHSEED": "pinned per partition: 1..%d" % (3 if tier == "quick" else 6)}),
+        X("interleaved", interleaved, parts=[{"n": 2, "steps": 2, "bystander": b} for b in ("step", "build", "restructure")] +
+          ([{"n": 3, "steps": 2, "bystander": "step"}] if tier != "quick" else []),
+          labels=("full_trajectory",), timeout=900, encoded=(Core.SystemManager.execute_systems, Model.execute, Environment.get_random_agent),
+          bounds={"systems": "2 (3 thorough), any priorities", "timesteps": 2, "draws": "one random pick per system run, symbolic stream",
+                  "unrelated code": "steps / builds / restructures another model from inside one of the systems"}),
+        X("rerun", rerun, parts=[{"service": sv} for sv in ("moore", "neumann", "neighbours", "agents", "agents_at", "shuffle")] +
+          [{"service": "moore", "between": True}, {"service": "agents", "between": True}],
+          labels=("two_steps",), timeout=900, encoded=(Env.DiscreteWorld.get_moore_neighbours, Env.DiscreteWorld.get_neumann_neighbours,
+                                                       Env.DiscreteWorld.get_neighbours, Environment.get_agents, Env.SpaceWorld.get_agents_at),
+          bounds={"world": "2x2 GridWorld, 3 agents", "timesteps": 2, "list consumed": "pop(randrange(len)) on the framework's answer"}),
         X("batch_seed", batch_seed, labels=("built",), timeout=300,
           encoded=(Model.__init__,), bounds={"seed": "all ints", "runner": "batch_run / grid_search", "model": "seed declared / via **kwargs"}),
         X("seed_plumbing", seed_plumbing, parts=[{"positional": True}, {"positional": False}], labels=("seed_zero", "no_seed"),
